@@ -81,6 +81,20 @@ def run(ctx):
         if parsers:
             st["PARSERS"] = parsers
         cases.append({"s": s, "langs": ["en"], "settings": st, "expect": expect_str(wall), "stratum": "epoch-%s%s/%s" % (kind, "-neg" if neg else "", "iana" if iana else "fixed")})
+    # epoch numbers whose instant falls in the repeated hour of a DST change of the configured zone: the instant is unambiguous, so
+    # the aware result / the result re-expressed through TO_TIMEZONE must be exactly that instant (both occurrences of the hour)
+    for tzname, y, mo, d, h in [("Europe/Paris", 2020, 10, 25, 0), ("Europe/Paris", 2020, 10, 25, 1), ("America/New_York", 2021, 11, 7, 5), ("America/New_York", 2021, 11, 7, 6),
+                                ("Australia/Lord_Howe", 2022, 4, 2, 15), ("Europe/London", 2015, 10, 25, 0), ("Europe/London", 2015, 10, 25, 1)]:
+        for mi in ([30] if tier == "quick" else [0, 15, 30, 59]):
+            inst = dt.datetime(y, mo, d, h, mi, tzinfo=dt.timezone.utc)
+            secs = int(inst.timestamp())
+            loc = inst.astimezone(pytz.timezone(tzname))
+            cases.append({"s": str(secs), "langs": ["en"], "settings": {"RELATIVE_BASE": bases[0], "TIMEZONE": tzname, "RETURN_AS_TIMEZONE_AWARE": True},
+                          "expect": expect_str(loc.replace(tzinfo=None), off=str(int(loc.utcoffset().total_seconds()))), "stratum": "epoch-fold/aware"})
+            cases.append({"s": str(secs), "langs": ["en"], "settings": {"RELATIVE_BASE": bases[0], "TIMEZONE": tzname, "TO_TIMEZONE": "UTC"},
+                          "expect": expect_str(inst.replace(tzinfo=None)), "stratum": "epoch-fold/to-utc"})
+            cases.append({"s": str(secs), "langs": ["en"], "settings": {"RELATIVE_BASE": bases[0], "TIMEZONE": tzname},
+                          "expect": expect_str(loc.replace(tzinfo=None)), "stratum": "epoch-fold/naive"})
     res = decide(ctx, cases, model_share=1.0 if tier == "quick" else 0.25)
     res["assumptions"] = ["IANA zones for the epoch form: the model is parametric (cases reported as rejected 'iana'); pytz is the oracle",
                           "the English string→token glue (sanitize, translate, tokenizer classification) is modelled and validated by the model tie on every sampled date"]
